@@ -51,7 +51,16 @@ func (g *Gen) noteCallee(fg *FG, c *Contract) {
 func (g *Gen) globalsSeen(fg *FG) []string      { return g.globals[fg] }
 func (g *Gen) addGlobalSeen(fg *FG, n string)   { g.globals[fg] = append(g.globals[fg], n) }
 func (g *Gen) nonblockingFn(name string) bool   { return g.nonblocking[name] }
-func (g *Gen) canInline(fn *ssa.Function) bool  { return false }
+func (g *Gen) canInline(fn *ssa.Function) bool {
+	if fn.Blocks == nil || fn.Recover != nil && false {
+		return false
+	}
+	n := 0
+	for _, b := range fn.Blocks {
+		n += len(b.Instrs)
+	}
+	return n <= 120
+}
 func (g *Gen) inRepo(fn *ssa.Function) bool {
 	p := g.pkgOfFn(fn)
 	return p != nil && strings.HasPrefix(p.Path(), repoModule)
@@ -227,9 +236,13 @@ type ghostFieldInfo struct {
 func (fg *FG) ghostField(t types.Type, name string) (ghostFieldInfo, bool) {
 	// ghost fields declared on "any" attach to every reference-like value (pointer or interface)
 	if ty, ok := fg.g.ct.GhostFields["any."+name]; ok {
-		switch types.Unalias(t).Underlying().(type) {
-		case *types.Pointer, *types.Interface:
+		switch u := types.Unalias(t).Underlying().(type) {
+		case *types.Pointer, *types.Interface, *types.Signature:
 			return ghostFieldInfo{family: "G_any_" + sanitize(name), ty: ty}, true
+		case *types.Basic:
+			if u.Kind() == types.UnsafePointer {
+				return ghostFieldInfo{family: "G_any_" + sanitize(name), ty: ty}, true
+			}
 		}
 	}
 	t = types.Unalias(t)
